@@ -750,6 +750,7 @@ type Channel struct {
 	sendQueueSize int32 // atomic.
 	recving       []byte
 	sending       []byte
+	isSending     bool  // a message taken off sendQueue is in progress (it may be empty)
 	recentlySent  int64 // exponential moving average
 
 	maxPacketMsgPayloadSize int
@@ -816,11 +817,12 @@ func (ch *Channel) canSend() bool {
 // Call before calling nextPacketMsg()
 // Goroutine-safe
 func (ch *Channel) isSendPending() bool {
-	if len(ch.sending) == 0 {
+	if !ch.isSending {
 		if len(ch.sendQueue) == 0 {
 			return false
 		}
 		ch.sending = <-ch.sendQueue
+		ch.isSending = true
 	}
 	return true
 }
@@ -834,6 +836,7 @@ func (ch *Channel) nextPacketMsg() tmp2p.PacketMsg {
 	if len(ch.sending) <= maxSize {
 		packet.EOF = true
 		ch.sending = nil
+		ch.isSending = false
 		atomic.AddInt32(&ch.sendQueueSize, -1) // decrement sendQueueSize
 	} else {
 		packet.EOF = false
